@@ -116,6 +116,10 @@ def gen_case(rng, vector=None, nfaces=None, N=None):
             "partner": partner, "bw": bw, "boundary": G.kwval(rng, axes, G.WORDS),
             "fill": G.kwval(rng, axes, [0, 5, -1, 9, 0.5]),
             # how the numbers are held (the partner component possibly differently)
+            # the labels the dataset gives its faces: 0..n-1 (None), 1-based, or any distinct integers;
+            # the table is keyed by the labels, the model works on positions
+            "labels": None if rng.random() < 0.7 else rng.choice([list(range(1, nfaces + 1)),
+                                                                   rng.sample(range(0, 9), nfaces)]),
             "dtype": rng.choice(["float64", "float64", "int64", "float32"]),
             "partner_dtype": rng.choice(["float64", "int64", "float32"])}
 
@@ -142,8 +146,12 @@ def build(case):
             sizes[d] = G.plen(p, c["N"][a])
     ds = xr.Dataset({f"v_{d}": ((d,), np.zeros(n)) for d, n in sizes.items()})
     coords = {a: {p: d for p, d in cs} for a, cs in c["coords"]}
-    fc = {"face": {f: {a: (tuple(l) if l is not None else None, tuple(r) if r is not None else None)
-                       for a, (l, r) in fal} for f, fal in case["conn"]}}
+    lab = case.get("labels")
+    L = (lambda f: lab[f]) if lab else (lambda f: f)
+    if lab:
+        ds = ds.assign_coords(face=("face", list(lab)))
+    lk = lambda l: (L(l[0]), l[1], l[2]) if l is not None else None
+    fc = {"face": {L(f): {a: (lk(l), lk(r)) for a, (l, r) in fal} for f, fal in case["conn"]}}
     g = Grid(ds, coords=coords, periodic=c["periodic"], boundary=c["boundary"], fill_value=c["fill"],
              face_connections=fc, autoparse_metadata=False)
     return ds, g, fc
